@@ -45,7 +45,7 @@ func runHarness(ld *Loaded, fn *ssa.Function, cfg *RunConfig) (h *HarnessRun, e 
 	e.tier = cfg.Tier
 	budget := 600 * time.Second
 	if cfg.Tier == "thorough" {
-		budget = 3000 * time.Second
+		budget = 1500 * time.Second
 	}
 	e.deadline = time.Now().Add(budget)
 	sol, err := NewSolver(e.tc, cfg.Solver, cfg.TimeoutMs)
@@ -55,7 +55,8 @@ func runHarness(ld *Loaded, fn *ssa.Function, cfg *RunConfig) (h *HarnessRun, e 
 	}
 	e.sol = sol
 	if cfg.Tier == "thorough" && cfg.XSolver != "" && cfg.XSolver != cfg.Solver {
-		if xs, err := NewSolver(e.tc, cfg.XSolver, cfg.TimeoutMs); err == nil {
+		// the second opinion gets 20 s per obligation; no answer in that time means "not cross-checked", nothing else
+		if xs, err := NewSolver(e.tc, cfg.XSolver, 20000); err == nil {
 			e.xsol = xs
 			defer xs.Close()
 		}
@@ -261,7 +262,7 @@ func cmdRun(args []string) int {
 	if cfg.TimeoutMs == 0 {
 		cfg.TimeoutMs = 60000
 		if cfg.Tier == "thorough" {
-			cfg.TimeoutMs = 600000
+			cfg.TimeoutMs = 120000
 		}
 	}
 	if s := os.Getenv("VERIF_SEED"); s != "" {
